@@ -9,7 +9,21 @@ import (
 	"flag"
 	"fmt"
 	"os"
+
+	"github.com/jdillenkofer/pithos/internal/verif/vkit"
 )
+
+// finishReplay ends a -replay run WITHOUT rewriting the property's evidence
+// file (a replay executes one case; the evidence of the last full run stays).
+func finishReplay(r *vkit.Run, reproduced bool) {
+	_ = os.RemoveAll(r.Dir)
+	if reproduced {
+		fmt.Println("replay: reproduced")
+		os.Exit(1)
+	}
+	fmt.Println("replay: not reproduced")
+	os.Exit(0)
+}
 
 func main() {
 	prop := flag.String("prop", "", "property id")
